@@ -1146,6 +1146,19 @@ def evaluate(t, env, memo=None):
             if not isinstance(v_, (bytes, bytearray, memoryview, list, tuple, int)):
                 raise CannotEval(repr(t)[:120])
             r = bytes(v_)
+        elif op in ("call:struct.unpack", "call:struct.unpack_from", "call:struct.calcsize") and t.args:
+            import struct as _struct
+            vals_ = [evaluate(a, env, memo) for a in t.args if not (isinstance(a, Op) and a.op == "kv")]
+            kw_ = {a.args[0].v: evaluate(a.args[1], env, memo) for a in t.args if isinstance(a, Op) and a.op == "kv"}
+            if not isinstance(vals_[0], str) or any(not isinstance(x, (bytes, bytearray, memoryview, int)) for x in vals_[1:]):
+                raise CannotEval(repr(t)[:120])
+            r = getattr(_struct, op.rsplit(".", 1)[1])(*vals_, **kw_)       # (a struct.error propagates: the code would raise it too)
+        elif op.startswith("attr:") and len(t.args) == 1:
+            v_ = evaluate(t.args[0], env, memo)
+            if isinstance(v_, tuple) and op[5:] in getattr(v_, "_fields", ()):
+                r = getattr(v_, op[5:])          # a field of a named tuple
+            else:
+                raise CannotEval(repr(t)[:120])
         elif op in ("call:bytearray", "call:bytes", "bytes", "bytearray") and not t.args:
             r = b""
         elif op == "rangelen" and len(t.args) == 3:
